@@ -115,6 +115,28 @@ Definition rng (p : piece) : N * N := fst p.
 Definition is_inline (p : piece) := match snd p with Inline => true | _ => false end.
 Definition is_queued (p : piece) := match snd p with Queued => true | _ => false end.
 
+
+(* ------------------------------------------------ the pipe contract, made explicit
+   LockLessMultiReadPipe (one writer, many readers, 2^8 slots) is modelled as a bounded bag:
+     WriterTryWriteFront  either FAILS (pipe full: nothing is stored, SplitAndAddTask then runs the piece
+                          inline on the writer) or stores the piece;
+     a stored piece is later handed to exactly one reader (WriterTryReadFront / ReaderTryReadBack).
+   [burst] is a thread issuing schedule() for the closures ids while no reader pops (all workers busy):
+   it returns the pieces left in the pipe and the ones run inline by the writer. *)
+Definition pipe_write (cap : nat) (q : list N) (x : N) : option (list N) :=
+  if (length q <? cap)%nat then Some (x :: q) else None.
+Fixpoint burst (write : list N -> N -> option (list N)) (q inl : list N) (ids : list N) : list N * list N :=
+  match ids with
+  | [] => (q, inl)
+  | x :: r => match write q x with
+              | Some q' => burst write q' inl r
+              | None => burst write q (x :: inl) r
+              end
+  end.
+(* a pipe whose full test is wrong: the write "succeeds" on a full pipe by overwriting the oldest unread entry *)
+Definition pipe_write_overwriting (cap : nat) (q : list N) (x : N) : option (list N) :=
+  Some (x :: firstn (cap - 1) q).
+
 (* ================================= C. memory events on the heap LocalTask (by task id) *)
 Inductive mev := MAlloc      (* new LocalTask *)
                | MWriteRC    (* m_RunningCount = 0          AddTaskSetToPipe *)
